@@ -1,7 +1,552 @@
-//! C06 — not implemented yet (see DESIGN.md section 4).
-use kit::Run;
-use serde_json::Value;
+//! C06 — certificate profile violations make the manifest invalid; conforming certificates are never flagged.
+//! S-inp: one generated end-entity certificate per profile rule (and, thorough, every compatible pair of rules)
+//! plus conforming controls for every key type, signed into a PNG through the kit's direct-COSE signer
+//! (hook `cose_sign_unchecked`, so the SDK's refusal to sign with such a certificate does not hide the reader's
+//! behaviour), without a time-stamp and with kit time-stamps that place the signing inside / outside the
+//! certificate's validity; every asset is read under a trust-verifying and a non-trust-verifying context.
+//! Second seam: the public c2pa::crypto::cose::check_end_entity_certificate_profile on the same certificates.
+//!
+//! Mutants caught (tools/mutant_run.sh E <patch> C06 quick):
+//!   mutants/C06-no-uid-check.diff       (issuer/subject unique-ID branch removed)
+//!   mutants/C06-any-eku-allowed.diff    (anyExtendedKeyUsage no longer rejected)
 
-pub fn run(_run: &Run, _replay: Option<&Value>) {
-    kit::ev::machinery("C06: check not implemented");
+use std::sync::{Arc, Mutex};
+
+use c2pa::crypto::cose::{check_end_entity_certificate_profile, CertificateTrustPolicy};
+use c2pa::status_tracker::StatusTracker;
+use kit::{
+    par,
+    pki::{self, CertSpec, Digest, Hierarchy, KeyKind, KitSigner, Ku, Obs, TokenOpts, Tsa, DAY},
+    Run,
+};
+use serde_json::{json, Value};
+
+/// (name, group) — rules of one group cannot be combined with each other
+const RULES: &[(&str, &str)] = &[
+    ("version-v1", "version"),
+    ("version-v2", "version"),
+    ("ca-true", "ca"),
+    ("self-signed", "issuer"),
+    ("sig-rsa-md5", "sig"),
+    ("sig-rsa-sha1", "sig"),
+    ("sig-ecdsa-sha1", "sig"),
+    ("key-p192", "key"),
+    ("key-rsa1024", "key"),
+    ("issuer-uid", "iuid"),
+    ("subject-uid", "suid"),
+    ("ku-absent", "ku"),
+    ("ku-keyEncipherment-only", "ku"),
+    ("ku-nonRepudiation-only", "ku"),
+    ("ku-keyCertSign-non-ca", "ku"),
+    ("eku-absent", "eku"),
+    ("eku-any", "eku"),
+    ("eku-any-plus-email", "eku"),
+    ("eku-serverAuth", "eku"),
+    ("eku-custom-unconfigured", "eku"),
+    ("critical-unknown-ext", "ext"),
+    ("not-yet-valid", "validity"),
+    ("expired", "validity"),
+];
+
+const CONTROLS: &[&str] = &[
+    "conform",
+    "conform-docsign",
+    "conform-c2pa-eku",
+    "conform-custom-eku-configured",
+    "conform-noncritical-unknown-ext",
+    "conform-ku-digsig+nonrep",
+    "conform-depth2",
+    "conform-depth3",
+    "conform-short-window",
+];
+
+#[derive(Clone, Copy, PartialEq, Eq, Debug)]
+enum Ts {
+    None,
+    /// kit token, genTime inside the certificate's validity
+    In,
+    /// kit token, genTime one day before notBefore
+    BeforeNb,
+    /// kit token, genTime after notAfter (one hour ago; only for expired certificates)
+    AfterNa,
+    /// token minted by `openssl ts -reply` (genTime = now)
+    Cli,
+}
+impl Ts {
+    fn name(self) -> &'static str {
+        match self {
+            Ts::None => "none",
+            Ts::In => "in",
+            Ts::BeforeNb => "before-notBefore",
+            Ts::AfterNa => "after-notAfter",
+            Ts::Cli => "cli-now",
+        }
+    }
+    fn from(s: &str) -> Ts {
+        [Ts::None, Ts::In, Ts::BeforeNb, Ts::AfterNa, Ts::Cli].into_iter().find(|t| t.name() == s).unwrap_or(Ts::None)
+    }
+}
+
+struct Plan {
+    ee: CertSpec,
+    depth: usize,
+    ca_kind: KeyKind,
+    ee_kind: KeyKind,
+    trust_config: Option<String>,
+}
+
+fn apply(rule: &str, p: &mut Plan, now: i64) {
+    match rule {
+        "version-v1" => p.ee.version = 0,
+        "version-v2" => p.ee.version = 1,
+        "ca-true" => p.ee.basic = Some((true, None)),
+        "self-signed" => p.depth = 0,
+        "sig-rsa-md5" => {
+            p.ca_kind = KeyKind::Rsa2048;
+            p.ee.digest = Some(Digest::Md5);
+        }
+        "sig-rsa-sha1" => {
+            p.ca_kind = KeyKind::Rsa2048;
+            p.ee.digest = Some(Digest::Sha1);
+        }
+        "sig-ecdsa-sha1" => {
+            p.ca_kind = KeyKind::P256;
+            p.ee.digest = Some(Digest::Sha1);
+        }
+        "key-p192" => p.ee_kind = KeyKind::P192,
+        "key-rsa1024" => p.ee_kind = KeyKind::Rsa1024,
+        "issuer-uid" => p.ee.issuer_uid = Some(vec![0x11, 0x22, 0x33]),
+        "subject-uid" => p.ee.subject_uid = Some(vec![0x44, 0x55]),
+        "ku-absent" => p.ee.key_usage = None,
+        "ku-keyEncipherment-only" => p.ee.key_usage = Some(vec![Ku::KeyEncipherment]),
+        "ku-nonRepudiation-only" => p.ee.key_usage = Some(vec![Ku::NonRepudiation]),
+        "ku-keyCertSign-non-ca" => p.ee.key_usage = Some(vec![Ku::DigitalSignature, Ku::KeyCertSign]),
+        "eku-absent" => p.ee.eku = None,
+        "eku-any" => p.ee.eku = Some(vec![pki::EKU_ANY.into()]),
+        "eku-any-plus-email" => p.ee.eku = Some(vec![pki::EKU_EMAIL.into(), pki::EKU_ANY.into()]),
+        "eku-serverAuth" => p.ee.eku = Some(vec![pki::EKU_SERVER.into()]),
+        "eku-custom-unconfigured" => p.ee.eku = Some(vec![pki::EKU_CUSTOM.into()]),
+        "critical-unknown-ext" => p.ee.extra_ext.push(("1.3.6.1.4.1.55555.1.1".into(), true, pki::der::null())),
+        "not-yet-valid" => {
+            p.ee.not_before = now + DAY;
+            p.ee.not_after = now + 30 * DAY;
+        }
+        "expired" => {
+            p.ee.not_before = now - 30 * DAY;
+            p.ee.not_after = now - DAY;
+        }
+        // ---- controls
+        "conform" => {}
+        "conform-docsign" => p.ee.eku = Some(vec![pki::EKU_DOCSIGN.into()]),
+        "conform-c2pa-eku" => p.ee.eku = Some(vec![pki::EKU_C2PA.into()]),
+        "conform-custom-eku-configured" => {
+            p.ee.eku = Some(vec![pki::EKU_CUSTOM.into()]);
+            p.trust_config = Some(pki::EKU_CUSTOM.into());
+        }
+        "conform-noncritical-unknown-ext" => p.ee.extra_ext.push(("1.3.6.1.4.1.55555.1.2".into(), false, pki::der::null())),
+        "conform-ku-digsig+nonrep" => p.ee.key_usage = Some(vec![Ku::DigitalSignature, Ku::NonRepudiation]),
+        "conform-depth2" => p.depth = 2,
+        "conform-depth3" => p.depth = 3,
+        "conform-short-window" => {
+            p.ee.not_before = now - 20 * DAY;
+            p.ee.not_after = now + 20 * DAY;
+        }
+        other => kit::ev::machinery(format!("C06: unknown rule {other}")),
+    }
+}
+
+#[derive(Clone)]
+struct Case {
+    rules: Vec<String>,
+    kind: KeyKind,
+    ts: Ts,
+}
+
+impl Case {
+    fn is_control(&self) -> bool {
+        self.rules.iter().all(|r| r.starts_with("conform"))
+    }
+    fn label(&self) -> String {
+        self.rules.join("+")
+    }
+    /// Does the certificate violate the profile *at the signing time this case establishes*? By construction.
+    fn violates(&self) -> bool {
+        let structural = self.rules.iter().any(|r| !r.starts_with("conform") && r != "expired" && r != "not-yet-valid");
+        let has = |n: &str| self.rules.iter().any(|r| r == n);
+        let validity = if has("expired") {
+            // window [now-30d, now-1d]
+            match self.ts {
+                Ts::In => false,
+                _ => true, // none / cli (= now), after-notAfter, before-notBefore
+            }
+        } else if has("not-yet-valid") {
+            true // none / cli (= now) / before-notBefore; "in" is never generated for it
+        } else {
+            // valid now; only a token before notBefore puts the signing outside
+            self.ts == Ts::BeforeNb
+        };
+        structural || validity
+    }
+    fn json(&self, seam: &str, ctx: &str) -> Value {
+        json!({"seam": seam, "rules": self.rules, "kind": self.kind.name(), "ts": self.ts.name(), "ctx": ctx})
+    }
+}
+
+struct Built {
+    h: Hierarchy,
+    trust_config: Option<String>,
+}
+
+fn build(c: &Case, now: i64) -> Built {
+    let tag = format!("c06-{}-{}", c.label(), c.kind.name());
+    let mut p = Plan { ee: CertSpec::ee(&format!("{tag} signer")), depth: 1, ca_kind: c.kind, ee_kind: c.kind, trust_config: None };
+    for r in &c.rules {
+        apply(r, &mut p, now);
+    }
+    // RSA keys come from the disk cache; the slot only depends on the role so that few keys are ever generated
+    let slot = format!("c06-{}", if p.depth == 0 { "self" } else { "h" });
+    let h = Hierarchy::build_with(&slot, p.depth, p.ca_kind, p.ee_kind, p.ee);
+    Built { h, trust_config: p.trust_config }
+}
+
+fn gen_time_for(c: &Case, h: &Hierarchy, now: i64) -> i64 {
+    let (nb, na) = (h.ee.spec.not_before, h.ee.spec.not_after);
+    match c.ts {
+        Ts::In => {
+            if na < now {
+                na - 9 * DAY
+            } else {
+                now - 3600
+            }
+        }
+        Ts::BeforeNb => nb - DAY,
+        Ts::AfterNa => now - 3600,
+        _ => now,
+    }
+}
+
+type Minted = Arc<Mutex<Vec<(Vec<u8>, Vec<u8>)>>>; // (reply, imprint)
+
+fn tsa_fn(tsa: &Arc<Tsa>, ts: Ts, gen_time: i64, minted: &Minted) -> pki::TsaFn {
+    let tsa = tsa.clone();
+    let minted = minted.clone();
+    Arc::new(move |msg: &[u8]| {
+        let imprint = pki::sha256(msg);
+        let reply = match ts {
+            Ts::Cli => match tsa.cli_reply(&Tsa::query(&imprint)) {
+                Ok(r) => r,
+                Err(e) => return Some(Err(c2pa::Error::BadParam(format!("kit tsa cli: {e}")))),
+            },
+            _ => tsa.build_reply(&imprint, &TokenOpts { gen_time, signing_time_attr: None, serial: pki::next_serial(), include_certs: true }),
+        };
+        minted.lock().unwrap().push((reply.clone(), imprint));
+        Some(Ok(reply))
+    })
+}
+
+struct Executed {
+    built: Built,
+    signed: Result<Vec<u8>, String>,
+    gen_time: i64,
+}
+
+fn execute(c: &Case, tsa: &Arc<Tsa>, now: i64) -> Executed {
+    let built = build(c, now);
+    let gen_time = gen_time_for(c, &built.h, now);
+    let minted: Minted = Arc::new(Mutex::new(vec![]));
+    let mut signer = KitSigner::for_hierarchy(&built.h).direct();
+    if c.ts != Ts::None {
+        signer = signer.with_tsa(tsa_fn(tsa, c.ts, gen_time, &minted));
+    }
+    let signed = pki::sign_asset(&signer, "image/png", &kit::assets::png(), pki::DEF_V2);
+    if c.ts != Ts::None && signed.is_ok() {
+        // precondition: the time-stamp the case relies on is a good one by an independent judge
+        let g = minted.lock().unwrap();
+        let Some((reply, imprint)) = g.last() else { kit::ev::machinery("C06: signer was never asked for a time-stamp") };
+        let token = pki::token_of_reply(reply).unwrap_or_else(|| kit::ev::machinery("C06: kit reply has no token"));
+        if !pki::ts_verify_cli(&token, imprint, &[&tsa.root], Some(gen_time)) {
+            kit::ev::machinery(format!("C06: openssl ts -verify rejects the kit token of case {} ts={}", c.label(), c.ts.name()));
+        }
+    }
+    Executed { built, signed, gen_time }
+}
+
+fn contexts(b: &Built, tsa: &Tsa) -> Vec<(&'static str, c2pa::Context)> {
+    let mut anchors = tsa.root.pem();
+    match &b.h.root {
+        Some(r) => anchors.push_str(&r.pem()),
+        None => anchors.push_str(&b.h.ee.pem()), // self-signed: the certificate itself is the only possible anchor
+    }
+    let mut trust = json!({"trust_anchors": anchors});
+    if let Some(tc) = &b.trust_config {
+        trust["trust_config"] = json!(tc);
+    }
+    vec![
+        ("trust", pki::read_ctx(trust.clone(), json!({"verify_trust": true}))),
+        ("notrust", pki::read_ctx(trust, json!({"verify_trust": false}))),
+    ]
+}
+
+fn judge(run: &Run, c: &Case, ctx_name: &str, o: &Result<Obs, String>) {
+    run.eval();
+    let id = format!("{}/{}/{}/{}", c.label(), c.kind.name(), c.ts.name(), ctx_name);
+    let case = c.json("reader", ctx_name);
+    let o = match o {
+        Err(p) => {
+            run.outcome("panic");
+            run.violation(format!("panic reading rule={} ts={}", c.label(), c.ts.name()), format!("{id}: {p}"), case);
+            return;
+        }
+        Ok(o) => o,
+    };
+    run.nontrivial(id.clone());
+    run.outcome(o.class());
+    let cred_fail = o.has("failure", "signingCredential.");
+    if c.violates() {
+        if o.ok_state() {
+            run.violation(
+                format!("accepted rule={} ts={} ctx={} state={} kind={}", c.label(), c.ts.name(), ctx_name, o.state, c.kind.name()),
+                format!("certificate violating [{}] (time-stamp: {}) reads {} with codes {:?}", c.label(), c.ts.name(), o.state, o.pick(&["signingCredential", "timeStamp"])),
+                case,
+            );
+        } else if !cred_fail && !o.state.starts_with("Err") {
+            run.violation(
+                format!("no-credential-code rule={} ts={} ctx={} kind={}", c.label(), c.ts.name(), ctx_name, c.kind.name()),
+                format!("certificate violating [{}] reads {} but no signingCredential.* failure code is reported: {:?}", c.label(), o.state, o.codes),
+                case,
+            );
+        }
+    } else {
+        let flagged = o.has("failure", "signingCredential.invalid") || o.has("failure", "signingCredential.expired");
+        if flagged {
+            run.violation(
+                format!("flagged control={} ts={} ctx={} kind={}", c.label(), c.ts.name(), ctx_name, c.kind.name()),
+                format!("conforming certificate [{}] (time-stamp: {}) is flagged: state {} codes {:?}", c.label(), c.ts.name(), o.state, o.pick(&["signingCredential", "timeStamp"])),
+                case,
+            );
+        } else if !o.ok_state() {
+            // not a verdict of this property: the seed itself is broken
+            kit::ev::machinery(format!("C06: conforming control {id} does not read back Valid/Trusted: {} {:?}", o.state, o.codes));
+        }
+    }
+}
+
+fn run_case(run: &Run, c: &Case, tsa: &Arc<Tsa>, now: i64) {
+    let ex = execute(c, tsa, now);
+    match &ex.signed {
+        Err(e) => {
+            run.eval();
+            run.outcome(format!("sign-refused:{}", e.split('(').next().unwrap_or("")));
+            if !c.violates() {
+                kit::ev::machinery(format!("C06: cannot sign with conforming control {}: {e}", c.label()));
+            }
+        }
+        Ok(bytes) => {
+            for (name, ctx) in contexts(&ex.built, tsa) {
+                let o = pki::observe(ctx, "image/png", bytes);
+                judge(run, c, name, &o);
+                if c.ts != Ts::None {
+                    if let Ok(o) = &o {
+                        run.outcome(format!("ts-used={}", o.has("success", "timeStamp.validated")));
+                    }
+                }
+            }
+        }
+    }
+    let _ = ex.gen_time;
+}
+
+// ---- second seam: the public profile checker -----------------------------------------------------------
+fn direct_case(run: &Run, c: &Case, tsa: &Arc<Tsa>, now: i64) {
+    let built = build(c, now);
+    let mut ctp = CertificateTrustPolicy::default();
+    if let Some(tc) = &built.trust_config {
+        ctp.add_valid_ekus(tc.as_bytes());
+    }
+    let mut log = StatusTracker::default();
+    let gen_time = gen_time_for(c, &built.h, now);
+    let der = built.h.ee.der.clone();
+    let r = par::guard(|| {
+        if c.ts == Ts::None {
+            check_end_entity_certificate_profile(&der, &ctp, &mut log, None).map_err(|e| format!("{e:?}"))
+        } else {
+            // a TstInfo can only be obtained from the public time-stamp verifier
+            let data = b"c06 direct seam";
+            let reply = tsa.build_reply(&pki::sha256(data), &TokenOpts { gen_time, signing_time_attr: None, serial: pki::next_serial(), include_certs: true });
+            let mut tlog = StatusTracker::default();
+            match c2pa::crypto::time_stamp::verify_time_stamp(&reply, data, &ctp, &mut tlog, false) {
+                Ok(tst) => check_end_entity_certificate_profile(&der, &ctp, &mut log, Some(&tst)).map_err(|e| format!("{e:?}")),
+                Err(e) => kit::ev::machinery(format!("C06: public verify_time_stamp rejects a kit token: {e:?}")),
+            }
+        }
+    });
+    run.eval();
+    let id = format!("direct/{}/{}/{}", c.label(), c.kind.name(), c.ts.name());
+    run.nontrivial(id.clone());
+    let case = c.json("direct", "-");
+    let statuses: Vec<String> = log.logged_items().iter().filter_map(|i| i.validation_status.as_ref().map(|s| s.to_string())).collect();
+    match r {
+        Err(p) => run.violation(format!("direct panic rule={}", c.label()), format!("{id}: {p}"), case),
+        Ok(Ok(())) => {
+            run.outcome("direct-ok");
+            if c.violates() {
+                run.violation(
+                    format!("direct accepted rule={} ts={} kind={}", c.label(), c.ts.name(), c.kind.name()),
+                    format!("check_end_entity_certificate_profile returns Ok for a certificate violating [{}] (time-stamp {})", c.label(), c.ts.name()),
+                    case,
+                );
+            }
+        }
+        Ok(Err(e)) => {
+            run.outcome(format!("direct-err:{e}"));
+            if !c.violates() {
+                run.violation(
+                    format!("direct flagged control={} ts={} kind={}", c.label(), c.ts.name(), c.kind.name()),
+                    format!("check_end_entity_certificate_profile rejects conforming [{}]: {e}, logged {statuses:?}", c.label()),
+                    case,
+                );
+            } else if !statuses.iter().any(|s| s.starts_with("signingCredential.")) {
+                run.violation(
+                    format!("direct no-credential-code rule={} ts={} kind={}", c.label(), c.ts.name(), c.kind.name()),
+                    format!("rejected with {e} but no signingCredential.* status was logged ({statuses:?})"),
+                    case,
+                );
+            }
+        }
+    }
+}
+
+fn cases(run: &Run) -> Vec<Case> {
+    let mut v = vec![];
+    let kinds: Vec<KeyKind> = if run.tier.is_thorough() { KeyKind::STRONG.to_vec() } else { vec![KeyKind::P256] };
+    let mk = |rules: &[&str], kind, ts| Case { rules: rules.iter().map(|s| s.to_string()).collect(), kind, ts };
+    // one rule at a time
+    for (rule, group) in RULES {
+        for &kind in &kinds {
+            let tss: &[Ts] = match *rule {
+                "expired" => &[Ts::None, Ts::In, Ts::BeforeNb, Ts::AfterNa, Ts::Cli],
+                "not-yet-valid" => &[Ts::None, Ts::BeforeNb, Ts::Cli],
+                _ => &[Ts::None, Ts::In],
+            };
+            let _ = group;
+            for &ts in tss {
+                if ts == Ts::Cli && !run.tier.is_thorough() && *rule != "expired" {
+                    continue;
+                }
+                v.push(mk(&[rule], kind, ts));
+            }
+        }
+    }
+    // controls on every key type
+    for ctl in CONTROLS {
+        for &kind in &KeyKind::STRONG {
+            if !run.tier.is_thorough() && *ctl != "conform" && kind != KeyKind::P256 {
+                continue;
+            }
+            let mut tss = vec![Ts::None, Ts::In];
+            if *ctl == "conform-short-window" {
+                tss.push(Ts::BeforeNb);
+            }
+            if *ctl == "conform" {
+                tss.push(Ts::Cli);
+            }
+            for ts in tss {
+                v.push(mk(&[ctl], kind, ts));
+            }
+        }
+    }
+    // thorough: every pair of rules of different groups (no time-stamp)
+    if run.tier.is_thorough() {
+        for (i, (a, ga)) in RULES.iter().enumerate() {
+            for (b, gb) in RULES.iter().skip(i + 1) {
+                if ga == gb {
+                    continue;
+                }
+                // the kit cannot give a self-signed certificate a different issuer key / digest pair
+                let sig_or_key = |g: &str| g == "sig" || g == "key";
+                if (*a == "self-signed" && sig_or_key(gb)) || (*b == "self-signed" && sig_or_key(ga)) {
+                    continue;
+                }
+                if sig_or_key(ga) && sig_or_key(gb) {
+                    continue;
+                }
+                v.push(mk(&[a, b], KeyKind::P256, Ts::None));
+            }
+        }
+    }
+    v
+}
+
+pub fn run(run: &Run, replay: Option<&Value>) {
+    run.rule("one end-entity certificate per profile rule (thorough: x every strong key type, and every compatible pair of rules) and conforming controls on every key type, \
+              each signed into a PNG by the kit's direct-COSE signer without a time-stamp and with kit time-stamps inside/outside the validity window, each read under a \
+              trust-verifying and a non-verifying context; plus the same certificates through the public check_end_entity_certificate_profile. \
+              non-trivial = every (rule set, key type, time-stamp variant, context) actually read back (sign refusals are counted as outcomes, not as non-trivial cases).");
+    run.assume("ground truth is by construction: the kit generator sets exactly the named fields; all other fields conform to the C2PA certificate profile (v3, non-CA, digitalSignature, emailProtection EKU, AKI, SHA-2 signature, validity 2020-2040)");
+    run.assume("signing time = genTime of a kit time-stamp that `openssl ts -verify` accepts (checked for every token; rejection is a machinery failure), else the wall clock");
+    run.assume("hand-encoded tokens carry no CMS signingTime attribute (the SDK prefers that attribute over genTime); CLI-minted tokens carry signingTime = genTime = now");
+    if !pki::cli_available() {
+        kit::ev::machinery("C06: openssl CLI not available");
+    }
+    let now = pki::now();
+    let tsa = Arc::new(Tsa::new("c06", KeyKind::P256, |_| {}));
+
+    if let Some(c) = replay {
+        let case = Case {
+            rules: c["rules"].as_array().map(|a| a.iter().filter_map(|x| x.as_str().map(String::from)).collect()).unwrap_or_default(),
+            kind: KeyKind::from_name(c["kind"].as_str().unwrap_or("p256")),
+            ts: Ts::from(c["ts"].as_str().unwrap_or("none")),
+        };
+        println!("replay {:?} kind={} ts={} -> profile violated by construction: {}", case.rules, case.kind.name(), case.ts.name(), case.violates());
+        if c["seam"] == "direct" {
+            direct_case(run, &case, &tsa, now);
+        } else {
+            let ex = execute(&case, &tsa, now);
+            println!("  certificate:\n{}", ex.built.h.ee.pem());
+            match &ex.signed {
+                Err(e) => println!("  signing refused: {e}"),
+                Ok(bytes) => {
+                    for (name, ctx) in contexts(&ex.built, &tsa) {
+                        if c["ctx"].as_str().is_some_and(|x| x != name) {
+                            continue;
+                        }
+                        let o = pki::observe(ctx, "image/png", bytes);
+                        println!("  ctx={name}: {o:?}");
+                        judge(run, &case, name, &o);
+                    }
+                }
+            }
+        }
+        return;
+    }
+
+    // owning nondeterminism: the same control twice must be observed identically
+    {
+        let c = Case { rules: vec!["conform".into()], kind: KeyKind::P256, ts: Ts::None };
+        let a = execute(&c, &tsa, now);
+        let (Ok(x), Ok(y)) = (&a.signed, &execute(&c, &tsa, now).signed) else { kit::ev::machinery("C06: baseline control cannot be signed") };
+        let ctx = || contexts(&a.built, &tsa).remove(0).1;
+        let (o1, o2) = (pki::observe(ctx(), "image/png", x), pki::observe(ctx(), "image/png", x));
+        if o1 != o2 || o1.as_ref().map(|o| o.state.clone()).ok() != Some("Trusted".into()) {
+            kit::ev::machinery(format!("C06: baseline control not deterministic or not Trusted: {o1:?} vs {o2:?}"));
+        }
+        let _ = y;
+        run.evals(2);
+    }
+
+    let all = cases(run);
+    run.space("(rule set, key type, time-stamp variant) signed assets, each read under 2 contexts", all.len() as u64, true);
+    run.space("(rule set, key type, time-stamp variant) through check_end_entity_certificate_profile", all.iter().filter(|c| c.ts != Ts::Cli).count() as u64, true);
+    for c in all.iter().take(3) {
+        run.sample(c.json("reader", "trust+notrust"));
+    }
+    if let Some(c) = all.iter().find(|c| c.rules[0] == "expired" && c.ts == Ts::In) {
+        run.sample(json!({"case": c.json("reader", "trust+notrust"), "violates_by_construction": c.violates()}));
+    }
+    par::for_each(&all, |c| {
+        run_case(run, c, &tsa, now);
+        if c.ts != Ts::Cli {
+            direct_case(run, c, &tsa, now);
+        }
+    });
 }
